@@ -34,6 +34,9 @@ def items(tier):
                     out.append((sp, {"rule": "TSLACK", "auto_abs": aa, "max_time": F.seq_bound(sp) + 8}))
     for sp in F.fac_specs(tier):
         out.append((sp, {"rule": "TSLACK", "max_time": F.seq_bound(sp) + 8}))
+    for sp in F.auto_component_specs():
+        for aa in (False, True):
+            out.append((sp, {"rule": "TSLACK", "auto_abs": aa, "max_time": F.seq_bound(sp) + 12}))
     # the same invariants on a run that follows an earlier run on the same project object
     for sp, o in list(out)[:: (7 if tier == "quick" else 2)]:
         out.append((sp, dict(o, presim=1)))
